@@ -681,4 +681,4 @@ def check_r3(rep, fx, V):
         rep.add('C10.R3', 'C10.R3:repl::run_line:update-only-on-ok', ok, why, f.name, t.get('at'))
 
 # as-built addendum
-EXPLANATION += " As built (DESIGN 9.2): As built the resources include the source registry, the heap and the reverse log; in-place overwrites of code/dict stay above the mark of the current context; the roll-back is bounded by the context right above the entry depth; program code runs at build time only sealed or after acceptance (user-defined immediate words: known finding); a halted program's run-time stacks are dropped."
+EXPLANATION += " As built (DESIGN 9.2): As built the resources include the source registry, the heap and the reverse log; in-place overwrites of code/dict stay above the mark of the current context; the roll-back is bounded by the context right above the entry depth; program code runs at build time only sealed or after acceptance (user-defined immediate words: known finding); a halted program's run-time stacks are dropped. A roll-back bound taken from the entry mark is the mark itself; a source that was built and failed while running is not rolled back; the step function patches an instruction for good only when no source is being read; a State field no roll-back restores is written after the word's last `?`."
